@@ -42,6 +42,13 @@ def check(ck):
         ck.ob("coerce_arguments: results of the arguments coercer are zipped with the declared arguments", ok, f, c[0] if c else f.node, construct="merge:coerce_arguments")
     with ck.rule("R3"):
         _siblings(ck, repo)
+        # the sequential twins let a failure propagate as an exception, the concurrent ones receive it as a gathered value:
+        # both agree only because every failure leaving a field is the located MultipleException (C02.R1/R2) and that is
+        # the one kind extract_exceptions_from_results recognises among gathered values
+        from . import c02
+        c02.r1(ck, repo)
+        c02.r2(ck, repo)
+        c02.extract_rule(ck, repo)
     with ck.rule("R4"):
         _shared_state(ck, repo)
     with ck.rule("R5"):
